@@ -89,6 +89,20 @@ def open_archive(cfg, root, name, cached=False, seed_dict=None):
     raise ValueError(cfg)
 
 
+def open_lowlevel(cfg, root, name):
+    """construct the archive object itself (klepto._archives class), without the seeding update({}) that klepto.archives.X(...) adds;
+    file configurations only (C14: keeps the open finding D12f - the update({}) re-save - out of the main pass)"""
+    import klepto._archives as ka
+    loc = location(cfg, root, name)
+    if cfg == 'file_pkl':
+        return ka.file_archive(loc)
+    if cfg == 'file_json':
+        return ka.file_archive(loc, protocol='json')
+    if cfg == 'file_src':
+        return ka.file_archive(loc, serialized=False)
+    raise ValueError(cfg)
+
+
 def copy_name(cfg, root, name):
     """the argument of copy(name) that creates archive <name> of the same kind"""
     if cfg in ('dict', 'null'):
